@@ -388,5 +388,46 @@ def oracles(ctx, deep):
             ki, kt = s1["input_masked_kspace"][b], s1["target_masked_kspace"][b]
             if not torch.equal(ki, torch.where(i1[None, :, :, None], k, torch.zeros(1))) or not torch.equal(kt, torch.where(t1[None, :, :, None], k, torch.zeros(1))):
                 add(Violation("split-kspace", "%s splitter: split k-spaces are not the k-space restricted to the two masks" % split, {"config": cfg, "sample": b}, {"splitter": split, "kind": "kspace"}))
+    # several candidate ratios: which one a call uses is part of what (file name, slice) has to determine, whatever
+    # the instance did before
+    from direct.ssl.ssl import GaussianMaskSplitterModule, UniformMaskSplitterModule
+    import random as _random
+
+    for t in range(ctx.n(30, 300) * (2 if deep else 1)):
+        rng = _random.Random(ctx.seed * 7919 + t)
+        split = rng.choice(["uniform", "gaussian"])
+        nrow, ncol = rng.randint(6, 12), rng.randint(6, 12)
+        ratios = rng.choice([[0.2, 0.8], [0.1, 0.5, 0.9], [0.3, 0.6]])
+        keep = rng.random() < 0.3
+        m = _mask(rng, "2d", nrow, ncol)
+        a = torch.zeros_like(m)
+        a[nrow // 2 - 1 : nrow // 2 + 1, ncol // 2 - 1 : ncol // 2 + 1] = True
+        a = a & m
+        kk = torch.arange(2 * nrow * ncol * 2, dtype=torch.float32).reshape(1, 2, nrow, ncol, 2) + 1.0
+        sm = m[None, None, :, :, None]
+
+        def sample(fn, sl):
+            return {"sampling_mask": sm.clone(), "acs_mask": a[None, None, :, :, None].clone(), "masked_kspace": torch.where(sm, kk, torch.zeros(1)), "filename": [fn], "slice_no": [sl]}
+
+        cls = UniformMaskSplitterModule if split == "uniform" else GaussianMaskSplitterModule
+        cfg = {"splitter": split, "shape": [nrow, ncol], "ratios": ratios, "keep_acs": keep, "trial": t}
+        runs += 1
+
+        def go():
+            fresh = cls(ratio=ratios, acs_region=(2, 2), keep_acs=keep, use_seed=True)
+            r0 = fresh(sample("vol.h5", 3))
+            used = cls(ratio=ratios, acs_region=(2, 2), keep_acs=keep, use_seed=True)
+            for j in range(rng.randint(1, 5)):
+                used(sample("other%d.h5" % j, j))
+            r1 = used(sample("vol.h5", 3))
+            return r0, r1
+
+        r = G.guarded(go, 6)
+        if r[0] != "ok":
+            add(Violation("split-returns", "%s splitter with ratios %s: %s" % (split, ratios, r[0]), {"config": cfg}, {"splitter": split, "kind": "ratio-list-" + r[0]}))
+            continue
+        r0, r1 = r[1]
+        if not torch.equal(r0["target_sampling_mask"], r1["target_sampling_mask"]) or not torch.equal(r0["input_sampling_mask"], r1["input_sampling_mask"]):
+            add(Violation("split-deterministic", "%s splitter with candidate ratios %s: the split of (vol.h5, slice 3) depends on the calls the instance served before (target sizes %d vs %d)" % (split, ratios, int(r0["target_sampling_mask"].sum()), int(r1["target_sampling_mask"].sum())), {"config": cfg, "mask": _cells(m)}, {"splitter": split, "kind": "determinism-history"}))
     ctx.oracle_runs = runs
     return out
